@@ -156,3 +156,320 @@ Proof.
   - exfalso. replace (p + 1) with (S p) in A by lia. apply (mod_succ_ne p (cap G)); auto.
   - assert (c = p) by lia. subst c. unfold data_at. auto.
 Qed.
+
+(* ---- (a) successful head CAS ---- *)
+Lemma ginv_head_cas G t v : ginv G -> done G = false -> seq_at G (head G) = head G ->
+  ginv (with_head_ev G (head G + 1) (EEnq t v)).
+Proof.
+  intros Hg Hd Hs. pose proof (gi_cap _ Hg) as Hc.
+  constructor; simpl; try apply Hg.
+  - pose proof (gi_th _ Hg). lia.
+  - intros i Hi. destruct (gi_slots _ Hg i Hi) as [(A & B & C)|(c & A & B & C & D & E & F)];
+      unfold slot_ok; simpl.
+    + left. change (slot_at (with_head_ev G (head G + 1) (EEnq t v)) i) with (slot_at G i).
+      split; auto. split; auto.
+      destruct (Nat.eq_dec (fst (slot_at G i) + cap G) (head G)) as [Eq|Ne]; [|lia].
+      exfalso. assert (head G mod cap G = i) by (rewrite <- Eq, mod_add_cap; auto; lia).
+      unfold seq_at in Hs. rewrite H in Hs. lia.
+    + right. exists c. change (slot_at (with_head_ev G (head G + 1) (EEnq t v)) i) with (slot_at G i).
+      repeat split; auto; try lia.
+      * destruct (Nat.eq_dec (c + cap G) (head G)) as [Eq|Ne]; [|lia].
+        exfalso. assert (head G mod cap G = i) by (rewrite <- Eq, mod_add_cap; auto; lia).
+        unfold seq_at in Hs. rewrite H in Hs. lia.
+      * intro L. rewrite enqs_app. apply nth_error_app_l. auto.
+  - rewrite enqs_app, app_length. simpl. rewrite (gi_nenq _ Hg). lia.
+  - rewrite run_spec_app, (gi_spec _ Hg). simpl. rewrite Hd. simpl. f_equal. f_equal.
+    rewrite enqs_app. simpl. rewrite skipn_app_last; auto.
+    rewrite (gi_nenq _ Hg). pose proof (gi_th _ Hg). lia.
+Qed.
+
+Ltac tinv_crush :=
+  unfold tinv, seq_at, data_at, slot_at; simpl.
+
+Lemma frame_head_cas G t v thu : done G = false -> tinv G thu ->
+  tinv (with_head_ev G (head G + 1) (EEnq t v)) thu.
+Proof.
+  intros Hd. unfold tinv, seq_at, data_at, slot_at. destruct (tpc thu); simpl; auto;
+    rewrite ?enqs_app; intuition (try lia; try congruence; try (apply nth_error_app_l; assumption)).
+Qed.
+
+(* ---- (b) successful tail CAS ---- *)
+Lemma ginv_tail_cas G t : ginv G -> seq_at G (tail G) = tail G + 1 ->
+  ginv (with_tail_ev G (tail G + 1) (EDeq t (data_at G (tail G)))).
+Proof.
+  intros Hg Hs. pose proof (gi_cap _ Hg) as Hc.
+  destruct (slot_phase1 G (tail G) Hg Hs) as (P1 & P2 & P3 & P4).
+  assert (Hnth := P4 (le_n _)).
+  assert (Een : enqs (events G ++ [EDeq t (data_at G (tail G))]) = enqs (events G))
+    by (rewrite enqs_app; simpl; apply app_nil_r).
+  constructor; simpl; try apply Hg.
+  - lia.
+  - intros i Hi. destruct (gi_slots _ Hg i Hi) as [(A & B & C)|(c & A & B & C & D & E & F)];
+      unfold slot_ok; simpl;
+      change (slot_at (with_tail_ev G (tail G + 1) (EDeq t (data_at G (tail G)))) i) with (slot_at G i).
+    + left. repeat split; auto; lia.
+    + right. exists c. repeat split; auto; try lia.
+      intro L. rewrite Een. apply F. lia.
+  - rewrite Een. apply Hg.
+  - rewrite run_spec_app, (gi_spec _ Hg). rewrite Een. simpl.
+    rewrite (skipn_nth_cons _ _ _ Hnth). rewrite N.eqb_refl.
+    replace (tail G + 1 + base G) with (S (tail G + base G)) by lia. reflexivity.
+Qed.
+
+Lemma frame_tail_cas G t thu : ginv G -> seq_at G (tail G) = tail G + 1 -> tinv G thu ->
+  tinv (with_tail_ev G (tail G + 1) (EDeq t (data_at G (tail G)))) thu.
+Proof.
+  intros Hg Hs.
+  assert (Een : enqs (events G ++ [EDeq t (data_at G (tail G))]) = enqs (events G))
+    by (rewrite enqs_app; simpl; apply app_nil_r).
+  unfold tinv. destruct (tpc thu); simpl; auto;
+  change (seq_at (with_tail_ev G (tail G + 1) (EDeq t (data_at G (tail G)))) (r_pos thu)) with (seq_at G (r_pos thu));
+  change (data_at (with_tail_ev G (tail G + 1) (EDeq t (data_at G (tail G)))) (r_pos thu)) with (data_at G (r_pos thu));
+  rewrite ?Een; intuition (try lia; try congruence).
+  - assert (r_pos thu <> tail G) by (intro E; rewrite E in *; lia). lia.
+  - assert (r_pos thu <> tail G) by (intro E; rewrite E in *; lia). lia.
+Qed.
+
+(* ---- (c,e) data writes into an owned slot ---- *)
+Lemma slot_ok_with_slots_ne G s i :
+  slot_at (with_slots G s) i = slot_at G i -> slot_ok G i -> slot_ok (with_slots G s) i.
+Proof. intros E H. unfold slot_ok in *. rewrite E. exact H. Qed.
+
+Lemma ginv_set_data G p d : ginv G ->
+  (seq_at G p = p \/ (seq_at G p = p + 1 /\ p < tail G)) ->
+  ginv (with_slots G (set_data G p d)).
+Proof.
+  intros Hg Hs. pose proof (gi_cap _ Hg) as Hc.
+  constructor; simpl; try apply Hg.
+  - unfold set_data. rewrite upd_length. apply Hg.
+  - intros i Hi. destruct (Nat.eq_dec i (p mod cap G)) as [->|Hne].
+    + unfold slot_ok. rewrite slot_set_data_eq by auto. simpl.
+      destruct (gi_slots _ Hg _ Hi) as [(A & B & C)|(c & A & B & C & D & E & F)].
+      * left. auto.
+      * right. exists c. repeat split; auto. intro L. exfalso.
+        unfold seq_at in Hs. destruct Hs as [Hs|[Hs Hlt]]; rewrite Hs in A.
+        -- subst p. apply (mod_succ_ne c (cap G)); auto.
+        -- assert (c = p) by lia. subst c. lia.
+    + apply slot_ok_with_slots_ne; [apply slot_set_data_ne; auto | apply Hg; auto].
+Qed.
+
+Lemma frame_set_data G p d thu : ginv G -> tinv G thu ->
+  (tpc thu = S_pub \/ tpc thu = R_read -> r_pos thu mod cap G <> p mod cap G) ->
+  tinv (with_slots G (set_data G p d)) thu.
+Proof.
+  intros Hg Ht Hc. unfold tinv in *.
+  assert (Hseq : forall q, seq_at (with_slots G (set_data G p d)) q = seq_at G q)
+    by (intro q; unfold seq_at; simpl; apply fst_set_data; auto).
+  assert (Hdat : forall q, q mod cap G <> p mod cap G ->
+                 data_at (with_slots G (set_data G p d)) q = data_at G q)
+    by (intros q Hq; unfold data_at; simpl; rewrite slot_set_data_ne; auto).
+  destruct (tpc thu); simpl; rewrite ?Hseq; auto.
+  - rewrite Hdat; auto.
+  - rewrite Hdat; auto.
+Qed.
+
+(* ---- (d) publish ---- *)
+Lemma ginv_set_seq_pub G p : ginv G -> seq_at G p = p -> p < head G ->
+  nth_error (enqs (events G)) (p + base G) = Some (data_at G p) ->
+  ginv (with_slots G (set_seq G p (p + 1))).
+Proof.
+  intros Hg Hs Hh Hn. pose proof (gi_cap _ Hg) as Hc.
+  destruct (slot_phase0 G p Hg Hs) as [P1 P2].
+  constructor; simpl; try apply Hg.
+  - unfold set_seq. rewrite upd_length. apply Hg.
+  - intros i Hi. destruct (Nat.eq_dec i (p mod cap G)) as [->|Hne].
+    + unfold slot_ok. rewrite slot_set_seq_eq by auto. simpl.
+      right. exists p. repeat split; auto; lia.
+    + apply slot_ok_with_slots_ne; [apply slot_set_seq_ne; auto | apply Hg; auto].
+Qed.
+
+(* ---- (f) recycle ---- *)
+Lemma ginv_set_seq_recycle G p : ginv G -> seq_at G p = p + 1 -> p < tail G ->
+  ginv (with_slots G (set_seq G p (p + cap G))).
+Proof.
+  intros Hg Hs Hh. pose proof (gi_cap _ Hg) as Hc.
+  destruct (slot_phase1 G p Hg Hs) as (P1 & P2 & P3 & _).
+  constructor; simpl; try apply Hg.
+  - unfold set_seq. rewrite upd_length. apply Hg.
+  - intros i Hi. destruct (Nat.eq_dec i (p mod cap G)) as [->|Hne].
+    + unfold slot_ok. rewrite slot_set_seq_eq by auto. simpl.
+      left. repeat split; try lia. apply mod_add_cap. lia.
+    + apply slot_ok_with_slots_ne; [apply slot_set_seq_ne; auto | apply Hg; auto].
+Qed.
+
+Definition seq_frame_cond (G : glob) (p : nat) (thu : thread) : Prop :=
+  match tpc thu with
+  | S_write | S_pub | R_read | R_recycle => r_pos thu mod cap G <> p mod cap G
+  | S_cas => head G = r_pos thu -> r_pos thu mod cap G <> p mod cap G
+  | R_cas => tail G = r_pos thu -> r_pos thu mod cap G <> p mod cap G
+  | _ => True
+  end.
+
+Lemma frame_set_seq G p v thu : ginv G -> tinv G thu -> seq_frame_cond G p thu ->
+  tinv (with_slots G (set_seq G p v)) thu.
+Proof.
+  intros Hg Ht Hc. unfold tinv, seq_frame_cond in *.
+  assert (Hdat : forall q, data_at (with_slots G (set_seq G p v)) q = data_at G q)
+    by (intro q; unfold data_at; simpl; apply snd_set_seq; auto).
+  assert (Hseq : forall q, q mod cap G <> p mod cap G ->
+                 seq_at (with_slots G (set_seq G p v)) q = seq_at G q)
+    by (intros q Hq; unfold seq_at; simpl; rewrite slot_set_seq_ne; auto).
+  destruct (tpc thu); simpl; rewrite ?Hdat; auto;
+    try (rewrite Hseq by auto; auto).
+  - destruct Ht as (A & B & C). repeat split; auto. intro E. rewrite Hseq; auto.
+  - destruct Ht as (A & B). repeat split; auto. intro E. rewrite Hseq; auto.
+Qed.
+
+(* ---- (g) extend ---- *)
+Lemma nth_map_seq {A} (f : nat -> A) n i d : i < n -> nth i (map f (seq 0 n)) d = f i.
+Proof.
+  intro H. rewrite (nth_indep _ d (f 0)) by (rewrite map_length, seq_length; auto).
+  rewrite map_nth. rewrite seq_nth; auto.
+Qed.
+
+Definition no_owner (T : list thread) : Prop :=
+  forall u thu, nth_error T u = Some thu -> s_own (tpc thu) = false /\ r_own (tpc thu) = false.
+
+(* without in-flight operations every buffered position is published in its slot *)
+Lemma quiescent_slot G T k : ginv G -> owners_ok G T -> no_owner T -> k < head G - tail G ->
+  seq_at G (tail G + k) = tail G + k + 1
+  /\ nth_error (enqs (events G)) (tail G + k + base G) = Some (data_at G (tail G + k)).
+Proof.
+  intros Hg Ho Hn Hk. pose proof (gi_cap _ Hg) as Hc.
+  set (p := tail G + k). set (i := p mod cap G).
+  assert (Hi : i < cap G) by (apply mod_lt'; lia).
+  destruct (Ho i Hi) as [O1 O2].
+  unfold seq_at, data_at. fold i.
+  destruct (gi_slots _ Hg i Hi) as [(A & B & C)|(c & A & B & C & D & E & F)].
+  - exfalso.
+    destruct (Nat.lt_ge_cases (fst (slot_at G i)) (head G)) as [L|L].
+    + destruct (O1 A L) as (u & thu & Hu & Ou & _). destruct (Hn _ _ Hu). congruence.
+    + assert (fst (slot_at G i) = p) by (apply (mod_close _ _ (cap G)); unfold p in *; auto; lia).
+      unfold p in *. lia.
+  - destruct (Nat.lt_ge_cases c (tail G)) as [L|L].
+    + exfalso. destruct (O2 c A B L) as (u & thu & Hu & Ou & _). destruct (Hn _ _ Hu). congruence.
+    + assert (c = p) by (apply (mod_close _ _ (cap G)); unfold p in *; auto; lia).
+      subst c. split; [lia|]. apply F. auto.
+Qed.
+
+Lemma head_le_tail_cap G : ginv G -> head G <= tail G + cap G.
+Proof.
+  intros Hg. pose proof (gi_cap _ Hg) as Hc.
+  assert (Hi : tail G mod cap G < cap G) by (apply mod_lt'; lia).
+  destruct (gi_slots _ Hg _ Hi) as [(A & B & C)|(c & A & B & C & D & E & F)].
+  - destruct (Nat.le_gt_cases (fst (slot_at G (tail G mod cap G))) (tail G)); [lia|].
+    assert (fst (slot_at G (tail G mod cap G)) = tail G) by (apply (mod_close _ _ (cap G)); auto; lia).
+    lia.
+  - destruct (Nat.le_gt_cases c (tail G)); [lia|].
+    assert (c = tail G) by (apply (mod_close _ _ (cap G)); auto; lia). lia.
+Qed.
+
+Lemma extend_grows G n : cap G < n ->
+  extend G n = mkGlob
+    (map (fun i => if i <? head G - tail G then (i + 1, data_at G (tail G + i)) else (i, 0%N)) (seq 0 n))
+    n (head G - tail G) 0 (done G) (etok G) (eclosed G) (ftok G) (fclosed G)
+    (exts G) (extended G + 1) (panicked G) (base G + tail G) (events G).
+Proof.
+  intro H. unfold extend. destruct (Nat.leb_spec n (cap G)); [lia|reflexivity].
+Qed.
+
+Lemma extend_noop G n : n <= cap G -> extend G n = G.
+Proof. intro H. unfold extend. destruct (Nat.leb_spec n (cap G)); [reflexivity|lia]. Qed.
+
+Lemma ginv_extend G T n : ginv G -> owners_ok G T -> no_owner T -> cap G < n ->
+  ginv (extend G n).
+Proof.
+  intros Hg Ho Hn Hlt. pose proof (gi_cap _ Hg) as Hc. pose proof (gi_th _ Hg) as Hth.
+  pose proof (head_le_tail_cap G Hg) as Hht.
+  rewrite extend_grows by auto.
+  constructor; simpl; try apply Hg.
+  - lia.
+  - rewrite map_length, seq_length. auto.
+  - lia.
+  - intros i Hi. unfold slot_ok, slot_at; simpl. rewrite nth_map_seq by auto.
+    destruct (Nat.ltb_spec i (head G - tail G)) as [L|L]; simpl.
+    + right. exists i. repeat split; try lia.
+      * apply Nat.mod_small. auto.
+      * intros. destruct (quiescent_slot G T i Hg Ho Hn L) as [_ Q].
+        replace (i + (base G + tail G)) with (tail G + i + base G) by lia. exact Q.
+    + left. repeat split; try lia. apply Nat.mod_small. auto.
+  - rewrite (gi_nenq _ Hg). lia.
+  - rewrite (gi_spec _ Hg). f_equal. f_equal. f_equal. lia.
+Qed.
+
+Lemma owners_extend G T' n : ginv G -> cap G < n -> owners_ok (extend G n) T'.
+Proof.
+  intros Hg Hlt. pose proof (gi_cap _ Hg) as Hc. pose proof (gi_th _ Hg) as Hth.
+  rewrite extend_grows by auto.
+  intros i Hi. simpl in Hi. unfold slot_at; simpl. rewrite nth_map_seq by auto.
+  destruct (Nat.ltb_spec i (head G - tail G)) as [L|L]; simpl; split.
+  - intros M _. exfalso. replace (i + 1) with (S i) in M by lia.
+    assert (i mod n = i) by (apply Nat.mod_small; auto).
+    apply (mod_succ_ne i n); [lia | congruence].
+  - intros c E M Lc. lia.
+  - intros _ Lh. lia.
+  - intros c E M Lc. lia.
+Qed.
+
+(* ---- owners under the global effects ---- *)
+Lemma owners_head_cas G T t th th' e : owners_ok G T -> nth_error T t = Some th ->
+  s_own (tpc th) = false -> r_own (tpc th) = false ->
+  s_own (tpc th') = true -> r_pos th' = head G ->
+  owners_ok (with_head_ev G (head G + 1) e) (upd t th' T).
+Proof.
+  intros Ho Ht Hs Hr Hs' Hp i Hi. simpl in Hi.
+  change (slot_at (with_head_ev G (head G + 1) e) i) with (slot_at G i). simpl.
+  destruct (Ho i Hi) as [A B]. split.
+  - intros M L. destruct (Nat.eq_dec (fst (slot_at G i)) (head G)) as [E|NE].
+    + exists t, th'. rewrite nth_error_upd_eq by (eapply nth_error_lt; eauto). repeat split; auto. congruence.
+    + destruct (A M ltac:(lia)) as (u & thu & Hu & Ou & Pu).
+      assert (u <> t) by (intros ->; congruence).
+      exists u, thu. rewrite nth_error_upd_ne by auto. auto.
+  - intros c E M L. destruct (B c E M L) as (u & thu & Hu & Ou & Pu).
+    assert (u <> t) by (intros ->; congruence).
+    exists u, thu. rewrite nth_error_upd_ne by auto. auto.
+Qed.
+
+Lemma owners_tail_cas G T t th th' e : owners_ok G T -> nth_error T t = Some th ->
+  s_own (tpc th) = false -> r_own (tpc th) = false ->
+  r_own (tpc th') = true -> r_pos th' = tail G ->
+  owners_ok (with_tail_ev G (tail G + 1) e) (upd t th' T).
+Proof.
+  intros Ho Ht Hs Hr Hr' Hp i Hi. simpl in Hi.
+  change (slot_at (with_tail_ev G (tail G + 1) e) i) with (slot_at G i). simpl.
+  destruct (Ho i Hi) as [A B]. split.
+  - intros M L. destruct (A M L) as (u & thu & Hu & Ou & Pu).
+    assert (u <> t) by (intros ->; congruence).
+    exists u, thu. rewrite nth_error_upd_ne by auto. auto.
+  - intros c E M L. destruct (Nat.eq_dec c (tail G)) as [Ec|NE].
+    + exists t, th'. rewrite nth_error_upd_eq by (eapply nth_error_lt; eauto). repeat split; auto. congruence.
+    + destruct (B c E M ltac:(lia)) as (u & thu & Hu & Ou & Pu).
+      assert (u <> t) by (intros ->; congruence).
+      exists u, thu. rewrite nth_error_upd_ne by auto. auto.
+Qed.
+
+Lemma owners_set_data G T p d : ginv G -> owners_ok G T ->
+  owners_ok (with_slots G (set_data G p d)) T.
+Proof.
+  intros Hg Ho i Hi. simpl in *. rewrite fst_set_data by auto. apply Ho. auto.
+Qed.
+
+Lemma owners_set_seq G T t th th' p v : ginv G -> owners_ok G T -> nth_error T t = Some th ->
+  r_pos th = p ->
+  (v mod cap G = p mod cap G -> v < head G -> False) ->
+  (forall c, v = S c -> c mod cap G = p mod cap G -> c < tail G -> False) ->
+  owners_ok (with_slots G (set_seq G p v)) (upd t th' T).
+Proof.
+  intros Hg Ho Ht Hp N1 N2 i Hi. simpl in *.
+  destruct (Nat.eq_dec i (p mod cap G)) as [->|Hne].
+  - rewrite slot_set_seq_eq by auto. simpl. split.
+    + intros M L. exfalso. auto.
+    + intros c E M L. exfalso. eauto.
+  - rewrite slot_set_seq_ne by auto. destruct (Ho i Hi) as [A B]. split.
+    + intros M L. destruct (A M L) as (u & thu & Hu & Ou & Pu).
+      assert (u <> t) by (intros ->; assert (thu = th) by congruence; subst thu; congruence).
+      exists u, thu. rewrite nth_error_upd_ne by auto. auto.
+    + intros c E M L. destruct (B c E M L) as (u & thu & Hu & Ou & Pu).
+      assert (u <> t) by (intros ->; assert (thu = th) by congruence; subst thu; congruence).
+      exists u, thu. rewrite nth_error_upd_ne by auto. auto.
+Qed.
